@@ -1,5 +1,6 @@
 import Varint.Lemmas.FOR
 import Varint.Lemmas.RLE
+import Varint.Props.C14
 /-
   C13 — decoders never write beyond the caller's output capacity.
   A model decoder returns the list of values it stores (in order, from index 0), so "modifies at most
@@ -89,5 +90,16 @@ theorem rle_decAux_length (fuel room : Nat) (bs vs : List Nat) (h : RLE.decAux f
 /-- run-length (headerless), any bytes: at most `cap` values are stored -/
 theorem rle_trace_lt_cap (bs : List Nat) (cap : Nat) (vs : List Nat) (h : RLE.dec bs cap = some vs) :
     vs.length ≤ cap := rle_decAux_length _ _ _ _ h
+
+/-- dictionary (DecodeInto), any bytes: at most `maxValues` values are stored (shared with C14) -/
+theorem dict_trace_lt_cap (bs : List Nat) (c : Nat) (vs : List Nat)
+    (h : (Bounded.dictDec bs (some c)).1 = .ok vs) : vs.length ≤ c :=
+  Varint.Props.C14.dict_out_le_cap bs c vs h
+
+/-- Elias gamma / delta array decoders, any bytes and any declared bit count: at most `maxCount` values -/
+theorem elias_trace_lt_cap (bytes : List Nat) (srcBits cap : Nat) (vs : List Nat) :
+    (Elias.decGamma bytes srcBits cap = some vs → vs.length ≤ cap) ∧
+    (Elias.decDelta bytes srcBits cap = some vs → vs.length ≤ cap) :=
+  Varint.Props.C14.elias_out_le_cap bytes srcBits cap vs
 
 end Varint.Props.C13
